@@ -1,0 +1,18 @@
+//go:build verif
+
+// Contracts for package lineintersector, read by /verif's govc. Comment-only.
+package lineintersector
+
+// C11: a point intersects a segment exactly when it lies on it (orientation test exact by C10, bounds test)
+//@ func RobustLineIntersector.computePointOnLineIntersection
+//@   floats real
+//@   requires data != nil && len(point) >= 2 && len(lineStart) >= 2 && len(lineEnd) >= 2
+//@   ensures data.intersectionType == (onSeg(point[0], point[1], lineStart[0], lineStart[1], lineEnd[0], lineEnd[1]) ? 1 : 0)
+//@   ensures data.intersectionType == 1 ==> (data.isProper <==> !(point[0] == lineStart[0] && point[1] == lineStart[1]) && !(point[0] == lineEnd[0] && point[1] == lineEnd[1]))
+//@   modifies *data
+
+//@ func PointIntersectsLine
+//@   floats real
+//@   requires len(point) >= 2 && len(lineStart) >= 2 && len(lineEnd) >= 2 && istype(strategy, RobustLineIntersector)
+//@   ensures res <==> onSeg(point[0], point[1], lineStart[0], lineStart[1], lineEnd[0], lineEnd[1])
+//@   modifies nothing
